@@ -51,7 +51,7 @@ func c16Text(rules []C08Rule, tagBase int64) (string, map[string]int64) {
 		if r.NoSal {
 			sal = ""
 		}
-		fmt.Fprintf(&b, "rule %q %q%s\nbegin\n  S(@name)\n  gate(@name)\n  E(@name)\n  return %d\nend\n", r.Name, r.Desc, sal, tag)
+		fmt.Fprintf(&b, "rule %q %q%s\nbegin\n  S(@name)\n  gate(@name)\n  E(@name)\n  return %d\nend\n", r.Name, r.desc(), sal, tag)
 	}
 	return b.String(), tags
 }
@@ -210,7 +210,7 @@ func checkC16(ci interface{}, x *Ctx) {
 	tg := &schedTarget{pool: p, env: env}
 	model := map[string]c08Entry{}
 	for _, r := range c.Init {
-		model[r.Name] = c08Entry{r.Sal, r.Desc, tags0[r.Name]}
+		model[r.Name] = c08Entry{r.Sal, r.desc(), tags0[r.Name]}
 	}
 	em := c.EM
 	cleared := false
@@ -235,7 +235,7 @@ func checkC16(ci interface{}, x *Ctx) {
 			if opErr == nil && pan == "" {
 				model = map[string]c08Entry{}
 				for _, r := range lastFullRules {
-					model[r.Name] = c08Entry{r.Sal, r.Desc, lastFullTags[r.Name]}
+					model[r.Name] = c08Entry{r.Sal, r.desc(), lastFullTags[r.Name]}
 				}
 				cleared = false
 			}
@@ -251,7 +251,7 @@ func checkC16(ci interface{}, x *Ctx) {
 			opErr, pan = guard(func() error { return p.UpdatePooledRulesIncremental(lastIncrText) })
 			if opErr == nil && pan == "" {
 				for _, r := range lastIncrRules {
-					model[r.Name] = c08Entry{r.Sal, r.Desc, lastIncrTags[r.Name]}
+					model[r.Name] = c08Entry{r.Sal, r.desc(), lastIncrTags[r.Name]}
 				}
 				cleared = false
 			}
@@ -263,7 +263,7 @@ func checkC16(ci interface{}, x *Ctx) {
 			if opErr == nil && pan == "" {
 				model = map[string]c08Entry{}
 				for _, r := range op.Rules {
-					model[r.Name] = c08Entry{r.Sal, r.Desc, tags[r.Name]}
+					model[r.Name] = c08Entry{r.Sal, r.desc(), tags[r.Name]}
 				}
 				cleared = false
 			}
@@ -282,7 +282,7 @@ func checkC16(ci interface{}, x *Ctx) {
 			opErr, pan = guard(func() error { return p.UpdatePooledRulesIncremental(text) })
 			if opErr == nil && pan == "" {
 				for _, r := range op.Rules {
-					model[r.Name] = c08Entry{r.Sal, r.Desc, tags[r.Name]}
+					model[r.Name] = c08Entry{r.Sal, r.desc(), tags[r.Name]}
 				}
 				cleared = false
 			}
